@@ -1,7 +1,7 @@
 #!/bin/sh
 # usage: tools/run_all_seeds.sh [out_file]   -- applies every /verif/seeded/<name>/patch.diff in a scratch worktree of /repo and
 # runs the property's quick check against it (VERIF_REPO=<worktree>); prints one line per seed: CAUGHT / MISSED / NOAPPLY
-# optional: SHARD=k/n runs every n-th seed starting at k (for parallel streams)
+# optional: SHARD=k/n runs every n-th seed starting at k (for parallel streams); ONLY=<regex> restricts to matching seed names
 OUT=${1:-/tmp/all_seeds.txt}
 : > $OUT
 K=${SHARD%/*}; N=${SHARD#*/}; I=0
@@ -9,6 +9,7 @@ for d in /verif/seeded/*/; do
   name=$(basename $d)
   I=$((I+1))
   if grep -q '"superseded"' $d/meta.json; then continue; fi
+  if [ -n "$ONLY" ] && ! echo "$name" | grep -Eq "$ONLY"; then continue; fi
   if [ -n "$SHARD" ] && [ $((I % N)) -ne $((K % N)) ]; then continue; fi
   # the check that is expected to catch it: the one named first in detected_by (a few seeds of property X are caught by the check of Y)
   pid=$(/venv/bin/python -c "import json,re;m=json.load(open('$d/meta.json'));r=re.match(r'\s*(C\d\d)',str(m.get('detected_by','')));print(r.group(1) if r else m['property'])")
